@@ -1,6 +1,7 @@
 """Test-program model (C01, C02, C03, C05): JSON specs of TestCase programs, a reference
 interpreter written from the property statements, and a builder onto real testtools.TestCase
 subclasses whose stage bodies interpret the spec and write an execution log."""
+import dataclasses
 import itertools
 import re
 import sys
@@ -18,16 +19,26 @@ NONEXC_KINDS = ("kbi", "sysexit", "base")
 # further non-Exception shapes (C01): exit codes that are falsy / absent, GeneratorExit, and interrupts that
 # strike inside a callable handed to a testtools helper (expectFailure, assertRaises)
 NONEXC_MORE = ("sysexit0", "sysexit_none", "genexit", "xf_kbi", "ar_kbi", "ar_sysexit")
+# (C01; opt-in through the spec only - no generator in this module draws them) exception objects of unusual make:
+# a dataclass exception (value equality, hence unhashable), one that is hashable and equal to every other instance
+# of its class, and PEP 654 groups (an ExceptionGroup is an ordinary error; a BaseExceptionGroup holding an
+# interrupt is not an Exception)
+ERROR_SHAPES = ("error_dc", "error_eq", "group")
+NONEXC_SHAPES = ("basegroup",)
 UNMARKED = ("skip_empty", "skip_noargs", "skip_int", "sysexit0", "sysexit_none", "genexit")   # message carries no MARK-n-
 CUSTOM_KINDS = ("customA", "customFail")
 SIMPLE_KINDS = FAILURE_KINDS + ERROR_KINDS + SKIP_KINDS + XFAIL_KINDS + UX_KINDS
+# (C03; opt-in through the spec only - no generator in this module draws them) the documented entry points called
+# rather than imitated (self.skipTest(..), self.fail(..)), and a plain unittest.SkipTest raised in a test whose own
+# skipException is an unrelated class (custom_skip): for that test it is an ordinary error
+API_KINDS = {"skip_api": "skip", "fail_api": "failure", "raw_skip_error": "error"}
 
 
 def klass(kind):
     """Semantic class of an exception kind."""
     if kind in FAILURE_KINDS or kind == "forced" or kind == "mismatch":
         return "failure"
-    if kind in ERROR_KINDS or kind in ("setup_error", "empty_multi", "upcall_error", "restore_error"):
+    if kind in ERROR_KINDS or kind in ERROR_SHAPES or kind in ("setup_error", "empty_multi", "upcall_error", "restore_error"):
         return "error"
     if kind in SKIP_KINDS:
         return "skip"
@@ -35,8 +46,10 @@ def klass(kind):
         return "xfail"
     if kind in UX_KINDS:
         return "uxsuccess"
-    if kind in NONEXC_KINDS or kind in NONEXC_MORE:
+    if kind in NONEXC_KINDS or kind in NONEXC_MORE or kind in NONEXC_SHAPES:
         return "nonexc"
+    if kind in API_KINDS:
+        return API_KINDS[kind]
     return "custom"
 
 
@@ -634,6 +647,22 @@ class FalsyError(RuntimeError):
         return 0
 
 
+@dataclasses.dataclass
+class DcError(Exception):
+    """A dataclass exception: eq=True gives value equality and takes __hash__ away."""
+    message: str
+
+
+class EqError(Exception):
+    """Hashable, and equal to every other EqError: two distinct errors of one run compare equal."""
+
+    def __eq__(self, other):
+        return isinstance(other, EqError)
+
+    def __hash__(self):
+        return 7
+
+
 MARK = re.compile(r"MARK-(-?\d+)-")
 
 
@@ -788,6 +817,14 @@ def build_case(prog, live, result_log=None, runner=None):
             return CustomA(msg)
         if kind == "customFail":
             return CustomFail(msg)
+        if kind == "error_dc":
+            return DcError(msg)
+        if kind == "error_eq":
+            return EqError(msg)
+        if kind == "group":
+            return ExceptionGroup(msg, [TypeError("first member"), ValueError("second member")])
+        if kind == "basegroup":
+            return BaseExceptionGroup(msg, [KeyboardInterrupt("interrupt in a group"), TypeError("second member")])
         raise AssertionError(kind)
 
     def do_raise(case, kind, i, text=""):
@@ -797,8 +834,28 @@ def build_case(prog, live, result_log=None, runner=None):
         if kind == "uxsuccess":
             case.expectFailure("MARK-%d-" % i, case.assertEqual, 1, 1)
             raise AssertionError("expectFailure did not raise")
+        if kind == "skip_api":
+            case.skipTest("MARK-%d-" % i + text)
+            raise RuntimeError("skipTest returned")
+        if kind == "fail_api":
+            case.fail("MARK-%d-" % i + text)
+            raise RuntimeError("fail returned")
+        if kind == "raw_skip_error":
+            raise unittest.SkipTest("MARK-%d-" % i + text)
         e = make_exc(case, kind, i, text)
         live.raised_objs.setdefault(i, []).append(e)
+        if prog.get("reuse_exc"):
+            # (C01) the very object has already been raised in - and reported by - a complete run of another
+            # test (a module-level cached error, a prebuilt SkipTest) before this test raises it
+            class Earlier(testtools.TestCase):
+                def test_earlier(self):
+                    raise e
+            try:
+                Earlier("test_earlier").run(unittest.TestResult())
+            except (MemoryError, RecursionError):
+                raise
+            except BaseException:
+                pass
         if kind in ("ar_kbi", "ar_sysexit"):
             def raiser():
                 raise e
@@ -1067,4 +1124,7 @@ def build_case(prog, live, result_log=None, runner=None):
             live.handler_calls.append((0, m if m is not None else type(exc_info[1]).__name__,
                                        None if result_log is None else len(result_log)))
         case.addOnException(outside)
+    if prog.get("clone"):
+        # (C01) what testscenarios-style multipliers run: a shallow copy of a constructed case under a new id
+        case = testtools.clone_test_with_new_id(case, case.id() + "(clone)")
     return case
